@@ -268,12 +268,23 @@ private:
 
     std::optional<DFS::SectorBuffer> read_block(unsigned long lba) override
     {
-      if (lba >= sectors_.size())
+      if (lba >= sectors_.size() || geom_.sectors == 0)
 	return std::nullopt;
-      const Sector& sect(sectors_[lba]);
-      DFS::SectorBuffer buf;
-      std::copy(sect.data.begin(), sect.data.end(), buf.begin());
-      return buf;
+      // Find the sector by its address rather than by its position
+      // in sectors_: if the track decoder dropped a damaged sector,
+      // the sectors after it must not be returned in its place.
+      const unsigned long cylinder = lba / geom_.sectors;
+      const unsigned long record = lba % geom_.sectors;
+      for (const Sector& sect : sectors_)
+	{
+	  if (sect.address.cylinder == cylinder && sect.address.record == record)
+	    {
+	      DFS::SectorBuffer buf;
+	      std::copy(sect.data.begin(), sect.data.end(), buf.begin());
+	      return buf;
+	    }
+	}
+      return std::nullopt;
     }
 
     std::string description() const override
